@@ -23,9 +23,11 @@ CLAIMED = {
     "C10": ("who-may-call (single binding hook) over call facts, control dependence in bind_with_occurs_check, wiring tables",
             "Decides that under the occurs-check unifiers no binding bypasses the check (the generic unifier binds only through the overridable hook, never through the raw binders or direct cell writes), that the check's flag controls the bind and is reported, that the three occurs_check modes are wired to the three unifiers, that every per-shape helper has the variable arms, that instruction handlers act on a failed occurs check before stepping and bind through the checked binder, that structure arguments are read only after the functor cell, and that an arena constant unifies only with itself or a variable. The worklist algorithm is not decided."),
     "C11": ("write/trail pairing, trail-tag round-trip, condition table, or-frame effect table over typed HIR",
-            "Decides that every cell write in a trailing function is paired with a trail call of the matching kind, that the trail conditions compare with hb/b strictly, that every trail entry tag pushed is undone by an arm restoring the matching self-reference in reverse order, that bb_b_put distinguishes its three states and stores no reference into the stack, that no caller skips a trail call because of what it sees in the trail, that functions writing heap/stack cells either trail or are on a reasoned table, who may call unwind_trail, and that choice points are saved/restored field for field. Which goals create choice points is not decided."),
+            "Decides that every cell write in a trailing function is paired with a trail call of the matching kind, that the trail conditions compare with hb/b strictly, that every trail entry tag pushed is undone by an arm restoring the matching self-reference in reverse order, that bb_b_put distinguishes its three states and stores no reference into the stack, that bb_put reads its value dereferenced, that no caller skips a trail call because of what it sees in the trail, that functions writing heap/stack cells either trail or are on a reasoned table, who may call unwind_trail, and that choice points are saved/restored field for field. Which goals create choice points is not decided."),
     "C12": ("goal-order rules over the catch/throw clauses of builtins.pl (plread), effect summaries of the Rust exception primitives (typed HIR, MIR order), who-may-build-a-thrown-error over every Err(..) of type Result<_, MachineStub>",
             "Decides the control skeleton of catch/3 and throw/1 and the form of builtin errors: throw/1 stores the thrown term (an instantiation error for an unbound ball) before it unwinds; catch/3 captures the outer block before installing its own; the recovery clause restores the outer block, fetches a copy of the ball, parks it and hands it to handle_ball/3, which unifies ball and catcher in its head, commits and calls the recovery, or restores the ball and unwinds again; set_ball stores a copy, unwind_stack cuts to the innermost block and fails, the block and ball-stack primitives do what those clauses need; every error a builtin raises (266 Err(stub) sites, 65 Err(generator) sites, 371 direct throws) is built by error_form, i.e. is error(Formal, Context); every cut that prunes choice points gives the installed cleanups a chance to run, and the loops running pending cleanups go on when one fails. The rest of setup_call_cleanup/3's Prolog driver and the undoing of bindings (C11) are not decided here."),
+    "C22": ("path-condition rules over the clause trees of the atom/character predicates in builtins.pl (plread); match-arm rule over the typed HIR of the Rust primitives",
+            "Decides the error clause only: every call of the primitives '$atom_length', '$atom_chars', '$atom_codes', '$char_code' in atom_length/2, atom_chars/2, atom_codes/2, char_code/2, atom_concat/3, sub_atom/5 and their helpers is reached only under a succeeded type test of each argument; every throw there is error(E, PI) with E an ISO error term and PI the predicate's own indicator; the culprit of a type or domain error is the argument whose matching test failed on that path, and an instantiation error follows a var test; in the Rust primitives the arm for an arbitrary-precision integer does not unwrap its narrowing to a machine integer (a code beyond the small-integer range is a representation error, not a panic). The solution sequences of the enumerating modes and the string results are not decided."),
     "C25": ("goal-order and variable-plumbing rules over the findall/forall clauses (plread) + effect summaries of the lifted-heap primitives (typed HIR)",
             "Decides the collection protocol under every all-solutions predicate: findall/3 and findall/4 remember the length of the solution store before iterating, iterate under catch/3 and on an error cut the store back to that length and re-throw; the iteration predicate calls the goal, copies the template to the store after each solution and fails back; its last clause hands over what was collected since the remembered length; forall/2 is \\+ (G, \\+ T); '$copy_to_lh' stores a copy, '$get_lh_from_offset[_diff]' copies back and cuts the store to the offset given; bagof/3 and setof/3 are the same goal sequence up to keysort/2 vs sort/2, order the pairs after the variant witnesses were made identical, and group by the free variables minus the ^-quantified ones (set difference by identity). The grouping algorithm itself (split_by_variant), countall/2 and call_nth/2 are not decided."),
     "C03": ("table agreement between the two evaluators over typed HIR (custom rustc driver)",
@@ -35,25 +37,25 @@ CLAIMED = {
     "C05": ("guarded-construction rule (RF3/RF4) over typed HIR + whole-crate call facts",
             "Decides that every arena allocation of a big integer sits in the failure branch of a small-integer range test (computed integers are canonical) or is a recorded exception, that the cross-representation consumers have arms for every integer encoding, and that a clause keyed by an integer with two spellings continues each key's choice sequence by that sequence's own length."),
     "C06": ("routing-table rule over typed HIR + MIR dominance for float interning + who-may-call",
-            "Decides that first-argument index keys are compared by value: only tag classes with one bit pattern per value reach the constant hash table, floats are interned by value before allocation, lookup sites look up the cell they dispatched on, index construction/removal use the same key functions, a two-clause choice sequence follows the direction of the insertion, and the try/retry kind of an entry comes from the emptiness of the sequence it is pushed onto."),
+            "Decides that first-argument index keys are compared by value: only tag classes with one bit pattern per value reach the constant hash table, floats are interned by value before allocation, lookup sites look up the cell they dispatched on, index construction/removal use the same key functions, a two-clause choice sequence follows the direction of the insertion, the try/retry kind of an entry comes from the emptiness of the sequence it is pushed onto, and the guard that merges a prepended clause into its neighbour's block compares two different clauses."),
     "C13": ("oracle-table / key-type rules over typed HIR and type facts",
             "Decides the category order, the tag->category table, the key type compared per category ((arity,name) for compounds, textual atoms), the Ordering->TermPair->Option<Ordering>->atom translations and the outcome sets of the 24 term-comparison arms. The argument traversal is not decided."),
     "C14": ("effect-summary rule over typed HIR (resolved std sort callee)",
             "Decides the builtins clause only: sort/2 sorts by the standard-order comparator then removes compare-equal neighbours; keysort/2 uses a stable std sort whose comparator reads only the keys. The Prolog collection libraries are not decided."),
     "C16": ("configuration / fallback-shape / radix-table rules over typed HIR + shared-reader reachability on the call graph",
-            "Decides that the reader's float parser is never configured lossy and is the only float parser of the reader, that the machine-word integer parse falls back to the big-integer parse and is range-checked, that the radix prefixes are wired to the right radix and digit class, and that number_chars/number_codes read through the same lexer and print through the same float formatter as read_term/write. Digit-level correctness of lexical/dashu/ryu is trusted."),
+            "Decides that the reader's float parser is never configured lossy and is the only float parser of the reader, that the machine-word integer parse falls back to the big-integer parse and is range-checked, that the radix prefixes are wired to the right radix and digit class, that a digit separator is accepted only between two digits, and that number_chars/number_codes read through the same lexer and print through the same float formatter as read_term/write. Digit-level correctness of lexical/dashu/ryu is trusted."),
     "C17": ("panic budget (RF5) over MIR call/assert facts of the reader scope against a triaged table; interprocedural must-pass-through (lexer progress) over MIR CFGs; match-arm rules over typed HIR",
             "Decides the no-panic clause (the multiset of potentially panicking constructs — unwrap/expect, panic!/assert!, Index/slice ops, integer division, overflowing multiplications — in the reader bodies reachable from the reader entry points does not exceed the triaged table) and the progress half of the resynchronisation clause (no lexical error leaves Lexer::next_token without having consumed input; a decoder error is not taken for the end of the input and its bytes are consumed; the end-of-file error is made only where the reader reported no more input). Skipping the rest of the offending clause is decided too and fails: recorded known finding. Termination of the parser proper and the terms read are not decided."),
     "C18": ("panic budget of the decoder scope, guarded-range rule, enum-dispatch sibling agreement of Stream's input methods",
-            "Decides that chunk boundaries and truncated input cannot reach a new panicking construct in CharReader or a CharRead/Read impl, that every constant-bounded range used to drain/slice the decode buffer is inside a branch establishing the bound, that peek/read/put_back/consume/read forward for the same stream kinds (each feature configuration in the thorough tier), and that the consuming reads skip the invalid bytes they report (so the characters after an invalid sequence are delivered) while no peek goes through the skipping entry. The decoded values are not decided."),
+            "Decides that chunk boundaries and truncated input cannot reach a new panicking construct in CharReader or a CharRead/Read impl, that every constant-bounded range used to drain/slice the decode buffer is inside a branch establishing the bound, that peek/read/put_back/consume/read forward for the same stream kinds (each feature configuration in the thorough tier), and that the consuming reads skip the invalid bytes they report (so the characters after an invalid sequence are delivered) while no peek goes through the skipping entry, and no refill of the decode buffer discards bytes that were not yet read. The decoded values are not decided."),
     "C19": ("enum-dispatch sibling agreement over `Stream`, who-may-consume rule for peek builtins, inverse-table agreement",
-            "Decides the interface clauses: every stream kind is handled consistently across the input, output, line-count and past-end sibling groups; peek_char/peek_code/peek_byte call no consuming stream method; the eof_action atom tables are mutually inverse; the three places that classify a position against the length agree that only beyond the length is past the end; the character-level readers count the newlines they consume; and the end of the input after nothing but layout is end_of_file, not the end of a partial term. Payload round-trips and position values are not decided."),
+            "Decides the interface clauses: every stream kind is handled consistently across the input, output, line-count and past-end sibling groups; peek_char/peek_code/peek_byte call no consuming stream method; the eof_action atom tables are mutually inverse; the three places that classify a position against the length agree that only beyond the length is past the end; the character-level readers count the newlines they consume; and the end of the input after nothing but layout is end_of_file, not the end of a partial term; the position of a buffered in-memory stream does not count what its decoder has only buffered, and a stream whose position cannot be asked is not past its end. Payload round-trips and position values are not decided."),
     "C20": ("exhaustive-sibling rule over every HeapCellValueTag match; sibling agreement inside compare_pstr_slices",
-            "Decides the representation clause: every tag dispatch that names the list cell also names the packed-string cell (and conversely) or is a reasoned exception, and every tail index returned by the string-segment comparison is computed from the same slice's scanned tail and cell offset; the walkers that turn a string into a list continue in both spellings; two strings are ordered by whole code points (the decoding window spans a UTF-8 sequence); a structure cell is taken for a list cell only after its functor was read. Offset arithmetic elsewhere is not decided."),
+            "Decides the representation clause: every tag dispatch that names the list cell also names the packed-string cell (and conversely) or is a reasoned exception, and every tail index returned by the string-segment comparison is computed from the same slice's scanned tail and cell offset; the walkers that turn a string into a list continue in both spellings; two strings are ordered by whole code points (the decoding window spans a UTF-8 sequence); a structure cell is taken for a list cell only after its functor was read; a location inside a string advances by bytes and the tail cell is found from the terminator; a NUL inside an instruction's string literal is not taken for the literal's end. Offset arithmetic elsewhere is not decided."),
     "C21": ("table agreement between the build-script crate and atom_table.rs; who-may-fabricate atoms; lookup-dominates-allocation (MIR)",
             "Decides that the inline/interned split, its length constant and its bit encoding are the same function of the text at build time and at run time, that raw atom values are fabricated only at listed decoders, that interning looks the text up before allocating, and that table hash/equality and atom order go through the text."),
     "C28": ("must-pass-through and dominance over MIR CFGs of QueryState::next / Machine::run_query; stub-frame effect table",
-            "Decides the acquire/release structure of an embedded query: the ball is copied with alignment and cleared on every reporting path, the stub choice point is fully initialised (heap mark = current top) and pushed before the goal starts, the success continuation is set, the end test compares with this query's stub, and Drop releases relative to that stub. Answer contents are not decided."),
+            "Decides the acquire/release structure of an embedded query: the ball is copied with alignment and cleared on every reporting path, the stub choice point is fully initialised (heap mark = current top) and pushed before the goal starts, the success continuation is set, the end test compares with this query's stub, Drop releases relative to that stub and forgets every setup_call_cleanup/3 block installed above it, restoring the block that was current below the lowest of them; every cell kind of an answer yields a term and anonymous variables of one answer get distinct names. Answer contents are not decided."),
     "C30": ("type-resolved escape-hatch rule over every Result<_, AllocError> expression in the crate",
             "Decides error discipline over every allocation site: no value of type Result<_, AllocError> is unwrapped, expect'ed, optioned, tested-and-dropped or discarded outside the reasoned exception table; resource errors are thrown from the pre-allocated term in one place; a failed growth leaves the capacity unchanged; the term copier puts the source term's cells back on every exit, including the allocation-failure exits (must-pass-through over its MIR CFG), and records every mark in its trail before anything that can fail; every choice point records the current heap top."),
     "C31": ("loop-structure rule over typed HIR of both dispatch loops; MIR order of swap/throw/backtrack; accessor table of the INTERRUPT static",
@@ -65,15 +67,15 @@ CLAIMED = {
     "C34": ("call-graph SCC table and recursive-type table (RF8)",
             "Decides that no native recursion proportional to term size exists outside the triaged tables: every call-graph cycle and every recursive data type (whose drop/clone glue recurses) is listed with a bound or as a finding. parser::ast::Term's glue recursion is a recorded known finding (deep/long terms overflow the native stack)."),
     "C37": ("name/implementation agreement per atom-keyed arm; Prolog fact list vs Rust arms; base64 option table",
-            "Decides the algorithm-selection clause: each algorithm atom constructs the hasher/constant it names, crypto.pl's hash_algorithm/1 facts equal the implemented set, and chars_base64 options select the matching engine (or a hand-built configuration sets decode padding together with encode padding), and the constants of the UTF-8 encoder and decoder of chars_utf8bytes/2 are those of RFC 3629 and agree with each other. Byte-level results of the hash and base64 crates are the libraries'."),
+            "Decides the algorithm-selection clause: each algorithm atom constructs the hasher/constant it names, crypto.pl's hash_algorithm/1 facts equal the implemented set, and chars_base64 options select the matching engine (or a hand-built configuration sets decode padding together with encode padding), and the constants of the UTF-8 encoder and decoder of chars_utf8bytes/2 are those of RFC 3629 and agree with each other; the two AEAD directions construct the same cipher from the same key and nonce arguments. Byte-level results of the hash and base64 crates are the libraries'."),
     "C43": ("Prolog clause tables (plread) vs Rust decoder/encoder; validators-before-'$op'; priority-0 filter in every table reader",
             "Decides the validation tables: specifier atoms agree across Prolog, Rust decoder and encoder; priority bounds are 0..1200; ',' [] {} are refused and '|' restricted in both the atom and the list form; every '$op' is preceded by the validators; priority 0 removes and every reader of the table skips priority-0 entries; current_op's direct lookup needs all arguments bound; OpDecl::submit answers Ok only after writing and writes only after both halves of the infix/postfix exclusion were tested; the list form checks the exclusion for all names first; who writes the table without submit (three loader functions do: recorded known finding). Histories are not decided."),
     "C44": ("clause-table agreement (plread) between current_prolog_flag/2, set_prolog_flag/2 and the Rust getters/setters",
-            "Decides that each flag is produced the same way when given and when enumerated (binding, not comparing), that read-only flags accept exactly their own value, that Prolog atoms, Rust setter atoms and getter atoms coincide and are mutually inverse, that bad values end in flag_value domain errors, that both predicates end with the flag/type error clauses, and that the occurs_check setters install objects reporting the set value and head unification honours the flag."),
+            "Decides that each flag is produced the same way when given and when enumerated (binding, not comparing), that read-only flags accept exactly their own value, that Prolog atoms, Rust setter atoms and getter atoms coincide and are mutually inverse, that bad values end in flag_value domain errors, that both predicates end with the flag/type error clauses, and that the occurs_check setters install objects reporting the set value head unification honours the flag, and each value of the unknown flag reaches the branch of the undefined-procedure path that implements it."),
     "C45": ("effect summary and data flow of read_term_body / write_read_term_options over typed HIR; reachability from both readers",
             "Decides the plumbing clause only: how variables/1, variable_names/1 and singletons/1 are derived from the term just read. The first-occurrence index of every variable is its position in an insertion-ordered table filled by one preorder traversal of the term; a second sighting clears the occurs-once flag; variables/1 and variable_names/1 are both built from the variable list sorted ascending by that index, variable_names/1 leaving out only the anonymous variable; singletons/1 keeps the non-anonymous variables whose flag is still set (so _-prefixed ones are included); both readers bind the options through this function. What the parser puts into the term and the traversal order of the iterator are not decided."),
     "C50": ("sibling agreement of in-memory and stream read/write paths over typed HIR and the call graph",
-            "Decides the shared-core clause: write_term and write_term_to_chars take their printer from the same constructor with the same operator table; stream and from-chars readers use the same parser entry, operator source, heap writer and option writers on success and on end of input; the names write_term_to_chars/3 fabricates for unnamed variables are distinct (one radix for letter and suffix, counter advanced past the name taken). Equality of results beyond sharing is not decided."),
+            "Decides the shared-core clause: write_term and write_term_to_chars take their printer from the same constructor with the same operator table; stream and from-chars readers use the same parser entry, operator source, heap writer and option writers on success and on end of input; the names write_term_to_chars/3 fabricates for unnamed variables are distinct (one radix for letter and suffix, counter advanced past the name taken); read_term/3 unifies its term argument only after the option lists were made. Equality of results beyond sharing is not decided."),
     "C55": ("printer/lexer character-class agreement from macro-expansion origins; special-case tables",
             "Decides that the printer's unquoted-atom decision uses the lexer's classes for first character and continuation, that the only special graphic starts are '/*' and a lone '.', that [] and {} are the only bracket atoms, and that the solo characters needing quotes are the oracle list. Spacing and operator printing are not decided."),
 }
@@ -81,7 +83,6 @@ CLAIMED = {
 NA = {
     "C08": "equality of answer sequences of static/dynamic/meta-called execution over all programs: a value-level property of generated code; no clause fixed by code shape beyond what C07/C09 check",
     "C15": "round-trip equality of printed and re-read terms over all terms/operator tables is value-level; the only structural clause (character-class agreement) is claimed under C55",
-    "C22": "mode-by-mode solution sequences of Prolog-defined enumerators (atom_length, sub_atom, ...): run-time values",
     "C23": "value-level results of term construction/inspection builtins",
     "C24": "termination and pointer-reversal restoration on cyclic terms depend on graph shape; no sound termination analysis in reach",
     "C26": "order-insensitivity of dif/freeze/when quantifies over histories of constraint posts in Prolog libraries",
